@@ -25,4 +25,16 @@ def h_agent_Agent_Signal : Nat := 0xb269b57c1b0b5730
 /-- hash of the normalised skeleton of HandleHTTP (internal/agent/agent.go) -/
 def h_agent_Agent_HandleHTTP : Nat := 0x493fc7cf66390e9a
 
+/-- hash of the normalised skeleton of * (internal/agent/agent.go) -/
+def h_rest_agent_agent_agent_go : Nat := 0x0432cbb7b0186cc8
+
+/-- hash of the normalised skeleton of * (internal/persistence/model/status.go) -/
+def h_rest_agent_persistence_model_status_go : Nat := 0xbeb2f7a53253ed76
+
+/-- hash of the normalised skeleton of * (internal/persistence/model/node.go) -/
+def h_rest_agent_persistence_model_node_go : Nat := 0x42fc9e336bdfd1bb
+
+/-- hash of the normalised skeleton of * (internal/client/client.go) -/
+def h_rest_agent_client_client_go : Nat := 0x651e066169377167
+
 end BdModel.Canon.Agent
